@@ -129,6 +129,7 @@ type instantiator struct {
 	seen    map[string]bool
 	newDecl []string
 	fresh   *int
+	max2    int
 }
 
 // binders returns the names of the binders if all have sort Int; ok=false otherwise.
@@ -191,8 +192,12 @@ func (in *instantiator) collect(f *sx, guards []string) {
 				emit(map[string]string{names[0]: c})
 			}
 		} else {
-			for _, c1 := range in.cands {
-				for _, c2 := range in.cands {
+			cs := in.cands
+			if len(cs) > in.max2 {
+				cs = cs[:in.max2]
+			}
+			for _, c1 := range cs {
+				for _, c2 := range cs {
 					emit(map[string]string{names[0]: c1, names[1]: c2})
 				}
 			}
@@ -236,4 +241,68 @@ func (in *instantiator) skolemize(f *sx) *sx {
 		}
 	}
 	return f
+}
+
+// hypSkolem rewrites a hypothesis: existential quantifiers in positive position and universal
+// quantifiers in negative position are replaced by fresh constants (conservative: the result is
+// implied by the hypothesis for suitable values of the fresh constants). Returns the rewritten
+// formula and whether anything changed.
+func (in *instantiator) hypSkolem(f *sx, positive bool) (*sx, bool) {
+	switch f.head() {
+	case "and", "or":
+		n := &sx{list: []*sx{f.list[0]}}
+		ch := false
+		for _, c := range f.list[1:] {
+			r, c2 := in.hypSkolem(c, positive)
+			n.list = append(n.list, r)
+			ch = ch || c2
+		}
+		return n, ch
+	case "not":
+		if len(f.list) == 2 {
+			r, ch := in.hypSkolem(f.list[1], !positive)
+			return &sx{list: []*sx{f.list[0], r}}, ch
+		}
+	case "=>":
+		if len(f.list) == 3 {
+			a, c1 := in.hypSkolem(f.list[1], !positive)
+			b, c2 := in.hypSkolem(f.list[2], positive)
+			return &sx{list: []*sx{f.list[0], a, b}}, c1 || c2
+		}
+	case "ite":
+		if len(f.list) == 4 {
+			a, c1 := in.hypSkolem(f.list[2], positive)
+			b, c2 := in.hypSkolem(f.list[3], positive)
+			return &sx{list: []*sx{f.list[0], f.list[1], a, b}}, c1 || c2
+		}
+	case "forall", "exists":
+		if len(f.list) != 3 {
+			return f, false
+		}
+		isForall := f.head() == "forall"
+		if isForall == positive {
+			// stays a quantifier; rewrite inside
+			body, ch := in.hypSkolem(stripBang(f.list[2]), positive)
+			if !ch {
+				return f, false
+			}
+			return &sx{list: []*sx{f.list[0], f.list[1], body}}, true
+		}
+		m := map[string]string{}
+		for _, b := range f.list[1].list {
+			if len(b.list) != 2 {
+				return f, false
+			}
+			*in.fresh++
+			name := fmt.Sprintf("hs!%s!%d", strings.ReplaceAll(b.list[0].atom, "!", "."), *in.fresh)
+			in.newDecl = append(in.newDecl, fmt.Sprintf("(declare-fun %s () %s)", name, b.list[1].String()))
+			m[b.list[0].atom] = name
+			if b.list[1].isAtom() && b.list[1].atom == "Int" {
+				in.cands = append([]string{name}, in.cands...)
+			}
+		}
+		body, _ := in.hypSkolem(substSx(stripBang(f.list[2]), m), positive)
+		return body, true
+	}
+	return f, false
 }
